@@ -524,6 +524,17 @@ def m_opaque_eq(ctx):
             return v
 
         qa, qb = through(ctx.args[0], "eqa"), through(ctx.args[1], "eqb")
+        if isinstance(qa, Enum) and isinstance(qb, Enum) and qa.path == qb.path:
+            # equal enum values are the same variant: comparing with a definite variant tells which one the other is
+            for x, y in ((qa, qb), (qb, qa)):
+                if len(y.variants) == 1:
+                    (vname,) = y.variants
+                    if vname not in x.variants:
+                        return Scalar(ctx.I.const_sym(1 if ne else 0, (0, 1), S))
+                    d = x.when.get(vname)
+                    if d is not None:
+                        return bool_top(ctx, when={(0 if ne else 1): d})
+                    break
         if isinstance(qa, (Seq, Arr)) and isinstance(qb, (Seq, Arr)):
             la, lb = S.term(len_sym(ctx, qa)), S.term(len_sym(ctx, qb))
             r = S.decide_cmp("Eq", la, lb)
